@@ -24,6 +24,7 @@
 #include <amgcl/amg.hpp>
 #include <amgcl/coarsening/smoothed_aggregation.hpp>
 #include <amgcl/relaxation/spai0.hpp>
+#include <amgcl/relaxation/as_preconditioner.hpp>
 #include <amgcl/solver/cg.hpp>
 #include <array>
 #include <map>
@@ -232,9 +233,43 @@ void check_zero_copy(Ctx &c, const Source &src, bool spd, const std::string &tag
                 {
                     Amg P(Z, prm);
                     VF_REQUIRE(static_cast<const void *>(P.system_matrix().val) == v, "amg(shared_ptr<crs>) copied the zero-copy matrix");
+                    VF_REQUIRE(P.system_matrix_ptr().get() == Z.get(), "amg(shared_ptr<crs>): system_matrix_ptr() is not the matrix that was passed in");
                     std::vector<double> y(n, 0.0); P.apply(src.x, y);
-                    amgcl::make_solver<Amg, amgcl::solver::cg<ab::builtin<double>>> S(Z);
-                    std::vector<double> xs(n, 0.0); S(src.y0, xs);
+                }
+                // make_solver(shared_ptr): the preconditioner's level-0 matrix IS the user's zero-copy matrix (identity of the object and
+                // of the three arrays), for amg and for a relaxation used as preconditioner; after an in-place update of the user's values
+                // the two-argument solve iterates on the updated matrix (judged by the true residual of the UPDATED system).
+                {
+                    typedef ab::builtin<double> DBk;
+                    typedef amgcl::make_solver<Amg, amgcl::solver::cg<DBk>> S1;
+                    typedef amgcl::make_solver<amgcl::relaxation::as_preconditioner<DBk, amgcl::relaxation::spai0>, amgcl::solver::cg<DBk>> S2;
+                    S1::params p1; p1.precond.coarse_enough = 4; p1.solver.maxiter = 300;
+                    S2::params p2; p2.solver.maxiter = 300;
+                    S1 s1(Z, p1); S2 s2(Z, p2);
+                    auto identity = [&](const std::shared_ptr<ab::crs<double>> &M, const char *who) {
+                        VF_REQUIRE(M.get() == Z.get(), who << "(shared_ptr<crs>): system_matrix_ptr() is a different object (the zero-copy matrix was copied)");
+                        VF_REQUIRE(static_cast<const void *>(M->ptr) == p && static_cast<const void *>(M->col) == cl && static_cast<const void *>(M->val) == v, who << "(shared_ptr<crs>): ptr/col/val do not alias the user arrays");
+                        VF_REQUIRE(!M->own_data, who << "(shared_ptr<crs>): system matrix claims ownership of user memory");
+                    };
+                    identity(s1.system_matrix_ptr(), "make_solver<amg,cg>"); identity(s2.system_matrix_ptr(), "make_solver<as_preconditioner<spai0>,cg>");
+                    VF_REQUIRE(&s1.system_matrix() == Z.get() && &s1.precond().system_matrix() == Z.get(), "make_solver<amg,cg>: system_matrix() is not the matrix passed in");
+                    std::vector<double> f = src.y0; bool nz = false; for (double q : f) nz = nz || q != 0; if (!nz) f[0] = 1;
+                    auto judged = [&](const char *who, const Csr<double> &Acur, size_t it, double res, const std::vector<double> &xs) {
+                        for (double q : xs) VF_REQUIRE(std::isfinite(q), who << ": non-finite solution");
+                        long double rho = true_relres(Acur, f, xs), allow = drift_allowance(Acur, f, xs, it);
+                        VF_REQUIRE(rho <= static_cast<long double>(res) + allow && rho >= static_cast<long double>(res) - allow, who << ": true residual w.r.t. the matrix currently in the user's arrays "
+                                   << static_cast<double>(rho) << ", reported " << res << " (iters " << it << ", allowance " << static_cast<double>(allow) << ")");
+                    };
+                    size_t it; double res;
+                    { std::vector<double> xs(n, 0.0); std::tie(it, res) = s1(f, xs); judged("make_solver<amg,cg>(shared_ptr) solve(f,x)", A, it, res, xs); }
+                    { std::vector<double> xs(n, 0.0); std::tie(it, res) = s2(f, xs); judged("make_solver<as_preconditioner,cg>(shared_ptr) solve(f,x)", A, it, res, xs); }
+                    // in-place update of the user's values: diagonal x1.25 (still an SPD M-matrix, and the smoother built for the old values stays
+                    // convergent -- with A <- 2A the stale SPAI-0 sweeps of a diagonal matrix cancel exactly and CG divides 0/0)
+                    Csr<double> A2 = A;
+                    for (ptrdiff_t i = 0; i < A.n; ++i) for (ptrdiff_t j = A.ptr[i]; j < A.ptr[i + 1]; ++j) { if (A.col[j] == i) A2.val[j] *= 1.25; v[j] = A2.val[j]; }
+                    { std::vector<double> xs(n, 0.0); std::tie(it, res) = s1(f, xs); judged("make_solver<amg,cg>(shared_ptr) after in-place update of the user values", A2, it, res, xs); }
+                    { std::vector<double> xs(n, 0.0); std::tie(it, res) = s2(f, xs); judged("make_solver<as_preconditioner,cg>(shared_ptr) after in-place update of the user values", A2, it, res, xs); }
+                    for (size_t j = 0; j < nnz; ++j) v[j] = v0[j]; // restore: the arrays are compared with the originals below
                 }
                 c.label("zero-copy-into-amg(shared_ptr)");
             }
@@ -372,6 +407,45 @@ static void prop_reorder(Tape &t, Ctx &c) {
     check_reorder<amgcl::reorder::cuthill_mckee<true>>(t, c, A, f, tol, ce, "reorder<reverse CM>");
 }
 
+// Graphs with many breadth-first levels / connected components (Cuthill-McKee keeps a level number per node): long chains, thin strips,
+// many small components, n up to ~1200; node numbering natural, reversed or rotated.
+static void prop_reorder_long(Tape &t, Ctx &c) {
+    int kind = static_cast<int>(t.u(0, 2));
+    std::vector<std::pair<int, int>> E; int n = 0; std::string fam;
+    if (kind == 0) { fam = "chain"; n = static_cast<int>(t.u(257, 1200)); for (int i = 0; i + 1 < n; ++i) E.push_back({i, i + 1}); }
+    else if (kind == 1) {
+        fam = "strip"; int w = static_cast<int>(t.u(2, 3)), L = static_cast<int>(t.u(257, 400)); n = w * L;
+        for (int l = 0; l < L; ++l) for (int k = 0; k < w; ++k) { int id = l * w + k; if (k + 1 < w) E.push_back({id, id + 1}); if (l + 1 < L) E.push_back({id, id + w}); }
+    } else {
+        fam = "components"; int k = static_cast<int>(t.u(250, 400));
+        for (int q = 0; q < k; ++q) { int sz = static_cast<int>(t.u(1, 3)); for (int a = 0; a + 1 < sz; ++a) E.push_back({n + a, n + a + 1}); if (sz == 3 && t.b()) E.push_back({n, n + 2}); n += sz; }
+    }
+    int relabel = static_cast<int>(t.u(0, 2)); int rot = relabel == 2 ? static_cast<int>(t.pick(static_cast<size_t>(n))) : 0;
+    auto lab = [&](int i) { return relabel == 0 ? i : relabel == 1 ? n - 1 - i : (i + rot) % n; };
+    std::vector<std::map<ptrdiff_t, double>> rows(n);
+    for (int i = 0; i < n; ++i) rows[i][i] = t.logu(0.05, 2.0);   // shift on every node: well conditioned SPD M-matrix
+    double contrast = t.logu(1.0, 10.0);
+    for (auto &e : E) { double w = contrast > 1 ? t.logu(1.0, contrast) : 1.0; int a = lab(e.first), b = lab(e.second); rows[a][b] -= w; rows[b][a] -= w; rows[a][a] += w; rows[b][b] += w; }
+    Csr<double> A = from_triplets<double>(n, n, rows);
+    // breadth-first levels from node 0 plus restarts: what Cuthill-McKee has to count
+    long levels = 0;
+    {
+        std::vector<int> lev(n, -1); std::vector<int> cur, nxt;
+        for (int s0 = 0; s0 < n; ++s0) {
+            if (lev[s0] >= 0) continue;
+            cur.assign(1, s0); lev[s0] = 0;
+            while (!cur.empty()) { ++levels; nxt.clear(); for (int u : cur) for (ptrdiff_t j = A.ptr[u]; j < A.ptr[u + 1]; ++j) { int w = static_cast<int>(A.col[j]); if (lev[w] < 0) { lev[w] = 1; nxt.push_back(w); } } cur.swap(nxt); }
+        }
+    }
+    std::string fk; std::vector<double> f = nonzero_rhs(t, A, fk);
+    double tol = 1e-8; unsigned ce = t.b() ? 3000 : 100;
+    c.desc << "reorder long " << fam << " n=" << n << " " << describe(A) << " relabel=" << relabel << " rot=" << rot << " bfs-levels=" << levels << " rhs=" << fk << " coarse_enough=" << ce;
+    c.nontrivial = levels >= 256;
+    c.label("long:" + fam); c.label(levels >= 256 ? "bfs-levels>=256" : "bfs-levels<256"); c.label(relabel == 0 ? "numbering:natural" : relabel == 1 ? "numbering:reversed" : "numbering:rotated");
+    check_reorder<amgcl::reorder::cuthill_mckee<false>>(t, c, A, f, tol, ce, "reorder<CM>");
+    check_reorder<amgcl::reorder::cuthill_mckee<true>>(t, c, A, f, tol, ce, "reorder<reverse CM>");
+}
+
 static void prop_scale(Tape &t, Ctx &c) {
     Graph g = gen_graph(t, t.chance(1, 4) ? 8 : 150, 0, 8);
     MmatInfo mi; Csr<double> A = gen_mmat(t, g, 10.0, false, &mi);
@@ -461,6 +535,7 @@ static std::vector<Prop> props() {
         Prop("adapters", prop_adapters, 700, 8000, 100, 60, {1}, 2, 8),
         Prop("zero_copy", prop_zero_copy, 500, 6000, 100, 60, {1}, 2, 8),
         Prop("reorder", prop_reorder, 300, 4000, 100, 40, {1}, 2, 8),
+        Prop("reorder_long", prop_reorder_long, 60, 800, 100, 150, {1}, 2, 8),
         Prop("scale", prop_scale, 300, 4000, 100, 40, {1}, 2, 8),
     };
 }
